@@ -20,13 +20,19 @@ fn longest(n: usize, edges: &[(usize, usize)]) -> Vec<usize> {
     r
 }
 
-thread_local! { static ACC_VARIANT: std::cell::Cell<u8> = const { std::cell::Cell::new(0) }; }
+thread_local! { static ACC_VARIANT: std::cell::Cell<u8> = const { std::cell::Cell::new(0) }; static REFUSED: std::cell::Cell<bool> = const { std::cell::Cell::new(false) }; }
 
 fn check(n: usize, edges: &[(usize, usize)], label: &str) -> bool {
     for v in 0..3u8 {
         ACC_VARIANT.with(|c| c.set(v));
-        if !check1(n, edges, &format!("{label}, access declaration variant {v}")) { return false; }
+        // ... and with edge requests that the builder has to refuse (the reverse of every accepted edge, a self-edge on every
+        // function) mixed in: a refused request must leave no trace in the ranks
+        for refused in [false, true] {
+            REFUSED.with(|c| c.set(refused));
+            if !check1(n, edges, &format!("{label}, access declaration variant {v}{}", if refused { ", with refused edge requests (reverse of each accepted edge, self-edges) in between" } else { "" })) { return false; }
+        }
     }
+    REFUSED.with(|c| c.set(false));
     true
 }
 
@@ -41,6 +47,13 @@ fn check1(n: usize, edges: &[(usize, usize)], label: &str) -> bool {
     })).collect();
     for (k, &(x, y)) in edges.iter().enumerate() {
         if k % 2 == 0 { b.add_logic_edge(ids[x], ids[y]).unwrap(); } else { b.add_contains_edge(ids[x], ids[y]).unwrap(); }
+        if REFUSED.with(|c| c.get()) {
+            let r = if k % 3 == 0 { b.add_contains_edge(ids[y], ids[x]) } else { b.add_logic_edge(ids[y], ids[x]) };
+            if r.is_ok() { println!("VIOLATION ({label}): n={n}: the reverse {y}->{x} of the accepted edge {x}->{y} was accepted"); return false; }
+        }
+    }
+    if REFUSED.with(|c| c.get()) {
+        for i in 0..n { let r = if i % 2 == 0 { b.add_logic_edge(ids[i], ids[i]) } else { b.add_contains_edge(ids[i], ids[i]) }; if r.is_ok() { println!("VIOLATION ({label}): n={n}: the self-edge on {i} was accepted"); return false; } }
     }
     let g = b.build();
     let got: Vec<usize> = g.ranks().iter().map(|r| r.0).collect();
